@@ -150,6 +150,8 @@ def instrumented(inj: Injector):
 
 
 def sha(p):
+    if os.path.isdir(p):
+        return "directory:" + ",".join(sorted(os.listdir(p)))
     return hashlib.sha1(Path(p).read_bytes()).hexdigest() if os.path.exists(p) else None
 
 
@@ -181,6 +183,11 @@ def run_job(job):
             a = work / f"sound{i}{AUDIO[i % 2].suffix}"
             shutil.copyfile(AUDIO[i % 2], a)
             audio.append(str(a))
+        if job.get("real") == "unreadable-sound" and audio:
+            # a REAL archive failure, no injection: the first "sound" is a directory of that name, which the archive library
+            # cannot read (SFileAddFileEx fails)
+            os.remove(audio[0])
+            os.mkdir(audio[0])
         dst = work / "out.scx"
         if job["dst"] == "existing":
             dst.write_bytes(b"previous content of the destination " * 50)
